@@ -5,6 +5,7 @@ import TantivyModel.Proofs.OrderEnc
 import TantivyModel.Proofs.LeafTree
 import TantivyModel.Proofs.JsonRange
 import TantivyModel.Proofs.PhraseAlign
+import TantivyModel.Proofs.PhraseExact
 /-!
 # C03 — Queries match exactly the documents their logical meaning prescribes
 
@@ -415,6 +416,24 @@ theorem C03_range_paths_agree (w : Nat) (lo hi : BndN) (v : Nat) (hv : v < 256 ^
   cases lo <;> cases hi <;> simp only [bndBe, bndBelow] at hlo hhi ⊢ <;>
     simp [L, R, hlo, hhi] <;> rw [Bool.eq_iff_iff] <;> simp <;> omega
 
+/-! ## exact phrases of any length: the sorted-merge intersections -/
+
+/-- slop 0, any number (≥ 2) of terms, in whatever order the scorer processes them (a permutation
+`ls'` of the adjusted position lists `ls`, each increasing): folding the lists with `intersection`
+and finishing with `intersection_exists` (scoring off) or `intersection_count > 0` (scoring on)
+decides exactly "one value is common to all lists" = `phraseExact` — the two real paths agree
+with each other and with the meaning, for every phrase length (contrast: slop ≥ 1 with ≥ 3 terms,
+`C03_phrase_slop3_inconsistent`). `leafTree` runs these algorithms in cost order. -/
+theorem C03_phrase_exact_any_terms (ls ls' : List (List Nat)) (hlen : 2 ≤ ls.length)
+    (hsorted : ∀ l ∈ ls, l.Pairwise (· ≤ ·)) (hperm : ls'.Perm ls) :
+    PhraseSlop.exactOff ls' = phraseExact ls ∧ PhraseSlop.exactOn ls' = phraseExact ls := by
+  have hlen' : 2 ≤ ls'.length := by rw [hperm.length_eq]; exact hlen
+  have hs' : ∀ l ∈ ls', l.Pairwise (· ≤ ·) := fun l hl => hsorted l (hperm.mem_iff.mp hl)
+  have hne : ls' ≠ [] := by intro h; rw [h] at hlen'; simp at hlen'
+  have h := PhraseSlop.exact_impl_eq_spec ls' hlen' hs'
+  have hp := PhraseSlop.phraseExact_perm ls' ls hne hperm
+  exact ⟨h.1.trans hp, h.2.trans hp⟩
+
 /-! ## alignment arithmetic of phrases and phrase prefixes (offsets, gaps) -/
 
 /-- the common offset on which the position lists are aligned does not matter: any `mx` above
@@ -584,6 +603,11 @@ example : JsonRange.inCol .u64 0 ∧ (JsonRange.B.excl (.i (-3))).wf ∧ JsonRan
     decide
   · show -(2 ^ 63) ≤ (-3 : Int) ∧ (-3 : Int) ≤ JsonRange.I64MAX
     decide
+example : PhraseSlop.exactOff [[4, 9], [1, 4, 7], [4]] = true ∧ PhraseSlop.exactOn [[4], [1, 4, 7], [4, 9]] = true
+    ∧ PhraseSlop.exactOff [[4, 9], [1, 5, 7], [4]] = false ∧ ([4, 9] : List Nat).Pairwise (· ≤ ·)
+    ∧ ([[4], [1, 4, 7], [4, 9]] : List (List Nat)).Perm [[4, 9], [1, 4, 7], [4]] := by
+  refine ⟨by decide, by decide, by decide, by decide, ?_⟩
+  exact (List.Perm.swap _ _ _).trans ((List.Perm.cons _ (List.Perm.swap _ _ _)).trans (List.Perm.swap _ _ _))
 -- "a x b…": full term a at 0, a term starting with b two positions later
 example :
     let d : ADoc := ⟨1, [⟨1, [97], [0]⟩, ⟨1, [120], [1]⟩, ⟨1, [98, 99], [2]⟩], []⟩
